@@ -36,6 +36,8 @@ func main() {
 	variants := fs.String("variants", "", "comma separated key-cache policies to rotate through")
 	conc := fs.Int("concurrent", 4, "concurrent streams / goroutines")
 	long := fs.Int("long", 0, "number of long random rounds")
+	caps := fs.String("capacities", "", "comma separated key-cache capacities to rotate through (non-simple policies)")
+	ifail := fs.Int("ifail", 0, "per-mille probability of an injected allocation/AEAD failure per operation")
 	strict := fs.Bool("strict", true, "compare with the model prediction and count drift")
 	die(fs.Parse(args))
 	switch cmd {
@@ -50,7 +52,19 @@ func main() {
 		if *variants != "" {
 			vs = strings.Split(*variants, ",")
 		}
-		die(envdrv.Replay(*in, *trace, *out, envdrv.Options{Seed: *seed, Strict: *strict}, vs))
+		var cs []int
+		for _, c := range strings.Split(*caps, ",") {
+			if c != "" {
+				var n int
+				fmt.Sscan(c, &n)
+				cs = append(cs, n)
+			}
+		}
+		die(envdrv.Replay(*in, *trace, *out, envdrv.Options{Seed: *seed, Strict: *strict, IFail: *ifail}, vs, cs))
+	case "env-long":
+		var lc envdrv.LongCfg
+		die(json.Unmarshal([]byte(*cfgJSON), &lc))
+		die(envdrv.Long(lc, *seed, *trace, *out))
 	case "part-replay":
 		die(partdrv.Replay(*in, *trace, *out, "s", "p"))
 	case "server-replay":
